@@ -1350,27 +1350,62 @@ impl IQLEngine {
         deps
     }
 
-    /// True when two or more different heads depend on each other (mutual
-    /// recursion). Self-recursion alone is handled by the per-head fixpoint.
-    fn has_mutual_recursion(&self, rule_heads: &[String]) -> bool {
+    /// Rule heads grouped for execution: every group is a set of heads that depend
+    /// on each other (a strongly connected component of the dependency sets; a
+    /// single head in the usual case), groups are ordered so that a group comes
+    /// after every group it reads, and the query (the last node) comes last.
+    fn execution_groups(&self, rule_heads: &[String]) -> Vec<Vec<usize>> {
         let deps = self.rule_dependency_sets(rule_heads);
         let n = deps.len();
-        // Kahn: nodes that never reach in-degree 0 lie on (or behind) a cycle
-        let mut in_degree: Vec<usize> = deps.iter().map(std::collections::HashSet::len).collect();
-        let mut ready: Vec<usize> = (0..n).filter(|&i| in_degree[i] == 0).collect();
-        let mut done = 0;
-        while let Some(i) = ready.pop() {
-            done += 1;
-            for (k, dep_set) in deps.iter().enumerate() {
-                if dep_set.contains(&i) {
-                    in_degree[k] -= 1;
-                    if in_degree[k] == 0 {
-                        ready.push(k);
-                    }
+        // reach[i] = heads that i reads, directly or through other heads
+        let mut reach: Vec<std::collections::HashSet<usize>> = Vec::with_capacity(n);
+        for i in 0..n {
+            let mut seen: std::collections::HashSet<usize> = std::collections::HashSet::new();
+            let mut todo: Vec<usize> = deps[i].iter().copied().collect();
+            while let Some(j) = todo.pop() {
+                if seen.insert(j) {
+                    todo.extend(deps[j].iter().copied());
+                }
+            }
+            reach.push(seen);
+        }
+        // group of i = i plus every head that reads i and is read by i
+        let mut group_of: Vec<usize> = (0..n).collect();
+        for i in 0..n {
+            for j in 0..i {
+                if reach[i].contains(&j) && reach[j].contains(&i) {
+                    group_of[i] = group_of[j];
+                    break;
                 }
             }
         }
-        done < n
+        let mut groups: Vec<Vec<usize>> = Vec::new();
+        let mut emitted = vec![false; n];
+        let last_group = if n == 0 { 0 } else { group_of[n - 1] };
+        while emitted.iter().any(|e| !e) {
+            // groups whose outside dependencies are all done
+            let ready: Vec<usize> = (0..n)
+                .filter(|&g| group_of[g] == g && !emitted[g])
+                .filter(|&g| {
+                    (0..n)
+                        .filter(|&i| group_of[i] == g)
+                        .all(|i| deps[i].iter().all(|&d| group_of[d] == g || emitted[d]))
+                })
+                .collect();
+            // lowest-numbered first; the query's group is held back until it is the only one left
+            let pick = ready
+                .iter()
+                .copied()
+                .find(|&g| g != last_group)
+                .or_else(|| ready.first().copied());
+            let Some(g) = pick else { break };
+            let members: Vec<usize> = (0..n).filter(|&i| group_of[i] == g).collect();
+            for &i in &members {
+                emitted[i] = true;
+            }
+            groups.push(members);
+        }
+        groups
     }
 
     fn collect_scan_relations(ir: &IRNode, scans: &mut Vec<String>) {
@@ -1674,96 +1709,105 @@ impl IQLEngine {
         collector.breakdown.shared_views_us = shared_us;
 
         // Execute main rules in dependency order (topological sort)
-        let execution_order = self.topological_sort_ir_nodes(&rule_heads);
+        let groups = self.execution_groups(&rule_heads);
         let mut last_result: Vec<Tuple> = Vec::new();
-        let final_node = execution_order.last().copied();
-        // Heads that depend on each other are not covered by the per-head
-        // fixpoint: one pass in execution order sees them incomplete. Repeat the
-        // pass (every node is recomputed from the current relations) until no
-        // relation changes; stratification makes the lower groups settle first.
-        let mutual_recursion = self.has_mutual_recursion(&rule_heads);
-        let mut passes: usize = 0;
+        let final_node = groups.last().and_then(|g| g.last()).copied();
 
-        loop {
-            let mut changed = false;
-            for &i in &execution_order {
-                let head_name = rule_heads.get(i).cloned().unwrap_or_default();
+        // Groups run dependencies first. Heads that depend on each other (a group
+        // of more than one head) are not covered by the per-head fixpoint: the
+        // group's pass is repeated - every head recomputed from the current
+        // relations - until none of its relations changes. Everything the group
+        // reads from outside is complete by then, so the group only grows.
+        for group in &groups {
+            let mutual_recursion = group.len() > 1;
+            let mut passes: usize = 0;
 
-                // Create fresh CodeGenerator for each rule (avoids timely state issues)
-                let mut codegen = CodeGenerator::new();
-                // The row limit truncates the returned answer only. Intermediate
-                // relations feed later rules and must stay complete: a truncated
-                // relation under negation or aggregation yields wrong rows.
-                if Some(i) == final_node {
-                    codegen.set_max_result_rows(self.max_result_rows);
-                }
-                // Set per-rule semiring type from boolean specialization
-                let semiring = self
-                    .semiring_annotations
-                    .get(i)
-                    .map_or(boolean_specialization::SemiringType::Counting, |a| {
-                        a.semiring
-                    });
-                codegen.set_semiring_type(semiring);
-                self.load_inputs_into_codegen(&mut codegen, &accumulated_results);
+            loop {
+                let mut changed = false;
+                for &i in group {
+                    let head_name = rule_heads.get(i).cloned().unwrap_or_default();
 
-                let is_recursive = recursive_info.get(i).is_some_and(Option::is_some);
-
-                // Use unoptimized IR for recursive nodes, optimized for others
-                let (exec_result, rule_us) = collector.time(|| {
-                    if let Some(Some(recursive_rel)) = recursive_info.get(i) {
-                        codegen.execute_recursive(&unoptimized_ir_nodes[i], recursive_rel)
-                    } else if self.num_workers > 1 {
-                        // Use parallel execution when configured for multi-worker
-                        let config =
-                            code_generator::ExecutionConfig::with_workers(self.num_workers);
-                        codegen.execute_with_config(&self.ir_nodes[i], config)
-                    } else {
-                        codegen.execute(&self.ir_nodes[i])
+                    // Create fresh CodeGenerator for each rule (avoids timely state issues)
+                    let mut codegen = CodeGenerator::new();
+                    // The row limit truncates the returned answer only. Intermediate
+                    // relations feed later rules and must stay complete: a truncated
+                    // relation under negation or aggregation yields wrong rows.
+                    if Some(i) == final_node {
+                        codegen.set_max_result_rows(self.max_result_rows);
                     }
-                });
-                let result = exec_result?;
-
-                last_result.clone_from(&result);
-
-                // Store results for subsequent rules
-                if !head_name.is_empty() {
-                    if mutual_recursion {
-                        let same = accumulated_results.get(&head_name).is_some_and(|old| {
-                            old.len() == result.len() && {
-                                let old_rows: std::collections::HashSet<&Tuple> =
-                                    old.iter().collect();
-                                result.iter().all(|t| old_rows.contains(t))
-                            }
+                    // Set per-rule semiring type from boolean specialization
+                    let semiring = self
+                        .semiring_annotations
+                        .get(i)
+                        .map_or(boolean_specialization::SemiringType::Counting, |a| {
+                            a.semiring
                         });
-                        changed |= !same;
+                    codegen.set_semiring_type(semiring);
+                    self.load_inputs_into_codegen(&mut codegen, &accumulated_results);
+
+                    let is_recursive = recursive_info.get(i).is_some_and(Option::is_some);
+
+                    // Use unoptimized IR for recursive nodes, optimized for others
+                    let (exec_result, rule_us) = collector.time(|| {
+                        if let Some(Some(recursive_rel)) = recursive_info.get(i) {
+                            codegen.execute_recursive(&unoptimized_ir_nodes[i], recursive_rel)
+                        } else if self.num_workers > 1 {
+                            // Use parallel execution when configured for multi-worker
+                            let config =
+                                code_generator::ExecutionConfig::with_workers(self.num_workers);
+                            codegen.execute_with_config(&self.ir_nodes[i], config)
+                        } else {
+                            codegen.execute(&self.ir_nodes[i])
+                        }
+                    });
+                    let result = exec_result?;
+
+                    last_result.clone_from(&result);
+
+                    // Store results for subsequent rules
+                    if !head_name.is_empty() {
+                        if mutual_recursion {
+                            let same = accumulated_results.get(&head_name).is_some_and(|old| {
+                                old.len() == result.len() && {
+                                    let old_rows: std::collections::HashSet<&Tuple> =
+                                        old.iter().collect();
+                                    result.iter().all(|t| old_rows.contains(t))
+                                }
+                            });
+                            changed |= !same;
+                        }
+                        accumulated_results.insert(head_name.clone(), result);
                     }
-                    accumulated_results.insert(head_name.clone(), result);
+
+                    collector.record_rule(
+                        head_name.clone(),
+                        rule_us,
+                        is_recursive,
+                        self.num_workers,
+                    );
+
+                    let rule_ms = rule_us / 1000;
+                    info!(
+                        source_len,
+                        rule_idx = i,
+                        rule_head = %head_name,
+                        rule_ms,
+                        recursive = is_recursive,
+                        workers = self.num_workers,
+                        "engine_rule_complete"
+                    );
                 }
-
-                collector.record_rule(head_name.clone(), rule_us, is_recursive, self.num_workers);
-
-                let rule_ms = rule_us / 1000;
-                info!(
-                    source_len,
-                    rule_idx = i,
-                    rule_head = %head_name,
-                    rule_ms,
-                    recursive = is_recursive,
-                    workers = self.num_workers,
-                    "engine_rule_complete"
-                );
-            }
-            if !(mutual_recursion && changed) {
-                break;
-            }
-            // Every changing pass of a stratified program adds at least one row to a
-            // group that has not settled; more passes than rows means no fixpoint
-            // (a cycle through negation that slipped past stratification).
-            passes += 1;
-            let rows: usize = accumulated_results.values().map(Vec::len).sum();
-            if passes > rows + rule_heads.len() + 2 {
-                return Err("Mutually recursive rules did not reach a fixpoint".to_string());
+                if !(mutual_recursion && changed) {
+                    break;
+                }
+                // Every changing pass of a stratified program adds at least one row to a
+                // group that has not settled; more passes than rows means no fixpoint
+                // (a cycle through negation that slipped past stratification).
+                passes += 1;
+                let rows: usize = accumulated_results.values().map(Vec::len).sum();
+                if passes > rows + rule_heads.len() + 2 {
+                    return Err("Mutually recursive rules did not reach a fixpoint".to_string());
+                }
             }
         }
 
